@@ -3,6 +3,7 @@ C14 — property theorems (statements only; helper lemmas live in `Proofs/C14*.l
 -/
 import Mahotas.Proofs.C14
 import Mahotas.Proofs.C14Holes
+import Mahotas.Proofs.C14Reg
 open Mahotas Mahotas.C14
 
 /-- **C14-T1 (local extrema).** For every image of every rank and shape, every pixel `p` inside it and
@@ -23,6 +24,20 @@ because the removal pass only ever clears marks. -/
 theorem C14_regional_subset_local (isMin : Bool) (A : Img Int) (nb : List (List Int)) (i : Nat)
     (h : (regModel isMin A nb).getD i false = true) : (locModel isMin A nb).getD i false = true :=
   removeFake_sub isMin A nb (locModel isMin A nb) i h
+
+/-- **C14-T2 (regional extrema = plateaus without a strictly better neighbour).** For every image of
+every rank and shape, every neighbourhood (centre removed) that is symmetric (`SymNb`: with `k` also
+`−k`, offsets of the rank of the image) and coordinate-wise star-shaped — cross and box are — and
+every pixel `q` inside the image: the model of `regmax`/`regmin` (`locmin_max`, then the scan of
+`remove_fake_regmin_max` with its stack flood through marked pixels) marks `q` exactly when **every**
+pixel `r` of the plateau of `q` (`PConn`: reached from `q` by neighbourhood steps between pixels of
+equal value inside the image) has no neighbour inside the image that is strictly higher
+(`isMin = false`) / strictly lower (`isMin = true`). Ties between plateaus, plateaus touching the
+border and any scan/stack order are covered. -/
+theorem C14_regional_eq_spec (isMin : Bool) (A : Img Int) (nb : List (List Int)) (hn : SymNb A nb)
+    (hstar : StarShaped nb) (q : List Int) (hq : inside A.shape q = true) :
+    (regModel isMin A nb).getD (ravelI A.shape q) false = true ↔ Regional isMin A nb q :=
+  regModel_spec hn hstar q hq
 
 /-- **C14-T4 (hit-or-miss = its definition).** For every image, every template whose sides are all
 odd (any rank ≥ 1, template of the rank of the image) and every position `p`: the model of
@@ -101,6 +116,10 @@ example :
     (locModel false { shape := [1, 4], data := #[1, 1, 2, 0] } (neighbours [1, 3] #[1, 1, 1])).toList
       = [true, false, true, false] := by
   decide
+
+/-! the 2-D cross is a symmetric neighbourhood of a 2×3 image -/
+example : SymNb { shape := [2, 3], data := #[2, 2, 1, 0, 1, 2] } (neighbours [3, 3] #[0, 1, 0, 1, 1, 1, 0, 1, 0]) :=
+  ⟨by decide, by decide⟩
 
 /-! non-vacuity for hit-or-miss and hole closing: a 3×3 ring is closed, the template matches once. -/
 example :
